@@ -1,6 +1,8 @@
 package main
 
 import (
+	"go/types"
+	"go/token"
 	"fmt"
 	"os"
 	"strings"
@@ -53,6 +55,36 @@ func debugDump(c *Ctx, what string) {
 						if isStringType(in.(*ssa.Lookup).X.Type()) {
 							fmt.Printf("%s %s\n", c.instrPos(in), fnName(fn))
 						}
+					}
+				}
+			}
+		}
+	case what == "survey":
+		for _, fn := range c.Funcs {
+			if !inLib(fn) {
+				continue
+			}
+			for _, b := range fn.Blocks {
+				for _, in := range b.Instrs {
+					switch x := in.(type) {
+					case *ssa.Convert:
+						fmt.Printf("CONV %s %s: %s -> %s\n", c.instrPos(in), fnName(fn), typeStr(x.X.Type()), typeStr(x.Type()))
+					case *ssa.BinOp:
+						if x.Op == token.EQL || x.Op == token.NEQ {
+							_, li := x.X.Type().Underlying().(*types.Interface)
+							_, ri := x.Y.Type().Underlying().(*types.Interface)
+							if li || ri {
+								fmt.Printf("IFACEEQ %s %s: %s %s %s\n", c.instrPos(in), fnName(fn), c.key(x.X, nil), x.Op, c.key(x.Y, nil))
+							}
+						}
+					case ssa.CallInstruction:
+						if x.Common().IsInvoke() {
+							fmt.Printf("INVOKE %s %s: %s.%s\n", c.instrPos(in), fnName(fn), c.key(x.Common().Value, nil), x.Common().Method.Name())
+						}
+					case *ssa.Range:
+						fmt.Printf("RANGE %s %s: over %s\n", c.instrPos(in), fnName(fn), typeStr(x.X.Type()))
+					case *ssa.MapUpdate, *ssa.Lookup:
+						fmt.Printf("MAPOP %s %s: %s\n", c.instrPos(in), fnName(fn), in.String())
 					}
 				}
 			}
